@@ -132,6 +132,8 @@ let rec render (d : WireSem.dval) : string =
   | WireSem.DErr v -> "E(" ^ render v ^ ")"
   | WireSem.DCycle up -> "cycle^" ^ string_of_int (int_of_nat up)
 
+let fuel = nat_of_int 100000
+
 let cut s = if String.length s > 300 then String.sub s 0 300 ^ "..." else s
 
 let run line =
@@ -142,7 +144,6 @@ let run line =
   let sexp = String.sub line (sp2 + 1) (String.length line - sp2 - 1) in
   let (hp, root) = case_of (parse_sx sexp) in
   let simple = (mode = "simple") in
-  let fuel = nat_of_int 200000 in
   let b = Buffer.create 256 in
   let add k v = Buffer.add_string b (k ^ "=" ^ v ^ " ") in
   (* the encoder model *)
